@@ -478,6 +478,50 @@ func init() {
 					}
 					judgeProgram(c, []model.Stmt{model.Text{S: "<"}, model.Print{E: e}, model.Text{S: ">"}}, data, "ternary", true)
 				}})
+			// (4b) an unparenthesised ternary in every place that takes an expression: conditions of @if/@elseif/@breakIf/@continueIf,
+			// the three clauses of @for, the source of @each, index, first element/argument/value, receiver in parentheses
+			nPos := 12
+			secs = append(secs, core.Section{Name: "ternary-in-every-position", Exhaustive: true, N: len(condTable) * nPos,
+				Run: func(c *core.Ctx, i int) {
+					pos := i % nPos
+					cv := condTable[i/nPos]
+					data := map[string]model.Value{}
+					cond := condExpr(cv.v, 0, pos%2 == 1, data)
+					lit := func(v int64) model.Expr { return model.Lit{V: model.Int(v)} }
+					tb := model.Ternary{C: cond, A: model.Lit{V: model.Bool(true)}, B: model.Lit{V: model.Bool(false)}}
+					ti := func(a, b int64) model.Expr { return model.Ternary{C: cond, A: lit(a), B: lit(b)} }
+					ts := model.Ternary{C: cond, A: model.StrLit{S: "A"}, B: model.StrLit{S: "B"}}
+					v := model.Var{Name: "v"}
+					var prog []model.Stmt
+					switch pos {
+					case 0:
+						prog = []model.Stmt{model.If{Conds: []model.Expr{tb}, Bodies: [][]model.Stmt{{model.Text{S: "T"}}}, Else: []model.Stmt{model.Text{S: "F"}}}}
+					case 1:
+						prog = []model.Stmt{model.If{Conds: []model.Expr{model.Lit{V: model.Bool(false)}, tb}, Bodies: [][]model.Stmt{{model.Text{S: "no"}}, {model.Text{S: "T"}}}, Else: []model.Stmt{model.Text{S: "F"}}}}
+					case 2:
+						prog = []model.Stmt{model.Each{Var: "v", Arr: intArr(1, 2, 3), Body: []model.Stmt{model.Print{E: v}, model.BreakIf{E: tb}, model.Text{S: ","}}}}
+					case 3:
+						prog = []model.Stmt{model.Each{Var: "v", Arr: intArr(1, 2, 3), Body: []model.Stmt{model.Print{E: v}, model.ContinueIf{E: tb}, model.Text{S: ","}}}}
+					case 4:
+						prog = []model.Stmt{model.For{Init: &model.Assign{Name: "v", E: ti(1, 2)}, Cond: model.Binary{Op: "<", L: v, R: lit(5)}, Post: model.Assign{Name: "v", E: model.Binary{Op: "+", L: v, R: lit(1)}}, Body: []model.Stmt{model.Print{E: v}}}}
+					case 5:
+						prog = []model.Stmt{model.For{Init: &model.Assign{Name: "v", E: lit(0)}, Cond: model.Ternary{C: cond, A: model.Binary{Op: "<", L: v, R: lit(2)}, B: model.Binary{Op: "<", L: v, R: lit(4)}}, Post: model.Print{E: model.Postfix{Op: "++", X: v}}, Body: []model.Stmt{model.Print{E: v}}}}
+					case 6:
+						prog = []model.Stmt{model.For{Init: &model.Assign{Name: "v", E: lit(0)}, Cond: model.Binary{Op: "<", L: v, R: lit(6)}, Post: model.Assign{Name: "v", E: model.Ternary{C: cond, A: model.Binary{Op: "+", L: v, R: lit(2)}, B: model.Binary{Op: "+", L: v, R: lit(3)}}}, Body: []model.Stmt{model.Print{E: v}}}}
+					case 7:
+						prog = []model.Stmt{model.Each{Var: "v", Arr: model.Ternary{C: cond, A: intArr(1, 2), B: intArr(7)}, Body: []model.Stmt{model.Print{E: v}}}}
+					case 8:
+						prog = []model.Stmt{model.Print{E: model.Index{X: model.ArrLit{Elems: []model.Expr{model.StrLit{S: "first"}, model.StrLit{S: "second"}}}, I: ti(0, 1)}}}
+					case 9:
+						prog = []model.Stmt{model.Print{E: model.Call{X: model.ArrLit{Elems: []model.Expr{ts, model.StrLit{S: "z"}}}, Name: "join", Args: []model.Expr{ts}}},
+							model.Print{E: model.Dot{X: model.ObjLit{Keys: []string{"a", "b"}, Vals: []model.Expr{ts, lit(0)}}, Name: "a"}}}
+					case 10:
+						prog = []model.Stmt{model.Print{E: model.Call{X: model.Paren{X: ts}, Name: "lower"}}, model.Print{E: model.Binary{Op: "+", L: model.StrLit{S: "x"}, R: model.Paren{X: ts}}}}
+					default:
+						prog = []model.Stmt{model.Assign{Name: "r", E: ts}, model.Print{E: model.Var{Name: "r"}}, model.Assign{Name: "q", E: model.Ternary{C: cond, A: ti(1, 2), B: ti(3, 4)}}, model.Print{E: model.Var{Name: "q"}}}
+					}
+					judgeProgram(c, append(append([]model.Stmt{model.Text{S: "<"}}, prog...), model.Text{S: ">"}), data, "ternary-position", false)
+				}})
 			// (5) @breakIf / @continueIf over the whole table
 			secs = append(secs, core.Section{Name: "breakIf-continueIf", Exhaustive: true, N: len(condTable) * 2 * 2 * 2,
 				Run: func(c *core.Ctx, i int) {
